@@ -12,7 +12,7 @@ From Coq Require Import Bool NArith List Lia Arith.
 Import ListNotations.
 From RsddV Require Import Base.Bdd Model.SddVtree Model.SddOps.
 From RsddV Require Import Proofs.SddBase Proofs.SddVtree Proofs.SddInv Proofs.SddLoops Proofs.SddNode
-  Proofs.SddAnd Proofs.SddCond Proofs.SddProg Proofs.SddWf Proofs.SddWfOps Proofs.SddWfAnd Proofs.SddWfProg.
+  Proofs.SddAnd Proofs.SddCond Proofs.SddProg Proofs.SddWf Proofs.SddWfOps Proofs.SddWfAnd Proofs.SddWfProg Proofs.SddCanon.
 
 (* the apply of the compressing builder maps well-formed operands to a well-formed result *)
 Theorem C04_sdd_and_wf : forall t cache a b,
@@ -81,12 +81,9 @@ Proof. exact under_agree. Qed.
 Print Assumptions C04_confined.
 
 (* ---- canonicity ---- *)
-(* full statement (Darwiche 2011, Thm. 3, with complement edges) *)
-Definition C04_sdd_canonical_statement : Prop :=
-  forall t p q, NoDup (vleaves t) -> wf_in t 0 p -> wf_in t 0 q ->
-  (forall a, sden p a = sden q a) -> sdd_eqb p q = true \/ exists p' q', False -> p' = q' :> sdd.
-(* the statement meant, modulo element order and the complement convention which [nf] leaves open:
-   kept visible; proved here only in part *)
+(* full statement (Darwiche 2011, Thm. 3, with complement edges; for equality of unfoldings the
+   element order and the complement convention of unique_or, which [nf] leaves open, have to be
+   added to [wf_in]): kept visible; proved here only in part *)
 Definition C04_sdd_canonical_full_statement : Prop :=
   forall t p q, NoDup (vleaves t) -> wf_in t 0 p -> wf_in t 0 q ->
   (forall a, sden p a = sden q a) -> p = q.
@@ -105,6 +102,24 @@ Proof.
     destruct (S E) as [a Ha]. rewrite H in Ha. discriminate.
 Qed.
 Print Assumptions C04_sdd_canonical_partial_const.
+
+(* part 2 (proved): the inductive step of the canonicity theorem -- uniqueness of compressed
+   partitions.  At one vtree node (VNode l r), two element lists with partitioned satisfiable
+   primes below l, pairwise distinct subs below r and the same denotation have the same elements,
+   GIVEN canonicity of the children (semantic equality implies pointer equality below l and
+   below r).  What is missing for the full statement: the induction over the vtree that discharges
+   the two hypotheses, the case of operands normalised for different vtree nodes, and the element
+   order / complement convention. *)
+Theorem C04_sdd_canonical_partial_partition : forall t l r off X Y,
+  NoDup (vleaves t) -> occurs t 0 (VNode l r) off ->
+  (forall p q, under l off p -> under l off q -> (forall a, sden p a = sden q a) -> p = q) ->
+  (forall p q, under r (S (off + vsize l)) p -> under r (S (off + vsize l)) q -> (forall a, sden p a = sden q a) -> p = q) ->
+  okl (under l off) (under r (S (off + vsize l))) X -> okl (under l off) (under r (S (off + vsize l))) Y ->
+  part X -> part Y -> NoDup (map snd X) -> NoDup (map snd Y) -> satl X -> satl Y ->
+  (forall a, den_els X a = den_els Y a) ->
+  forall e, In e X <-> In e Y.
+Proof. intros t l r off X Y ND Ho CP CS. apply (partition_unique t ND l r off Ho CP CS). Qed.
+Print Assumptions C04_sdd_canonical_partial_partition.
 
 (* non-vacuity: the model run of a program on a balanced vtree is well formed, and a hand-made
    uncompressed node is not *)
